@@ -59,6 +59,26 @@ pub struct CheckEnv {
 }
 
 // ---------------------------------------------------------------------------------------------
+// death notes: a scenario about to do something that may kill the process (stack overflow,
+// abort) leaves a short description next to the current run index, so that the parent can say
+// *what* died and known findings can be matched on it.
+
+static CUR_FILE: std::sync::OnceLock<std::sync::Mutex<std::fs::File>> = std::sync::OnceLock::new();
+
+pub fn set_death_note(note: &str) {
+    if let Some(f) = CUR_FILE.get() {
+        use std::os::unix::fs::FileExt;
+        let f = f.lock().unwrap();
+        let b = note.as_bytes();
+        let n = b.len().min(200);
+        let _ = f.write_all_at(&(n as u32).to_le_bytes(), 8);
+        let _ = f.write_all_at(&b[..n], 12);
+    } else if std::env::var_os("VERIF_LIVE_TRACE").is_some() {
+        eprintln!("  ! {note}");
+    }
+}
+
+// ---------------------------------------------------------------------------------------------
 // panic capture
 
 thread_local! {
@@ -555,6 +575,9 @@ fn cmd_worker(scenarios: &[Scenario], a: WorkerArgs) -> i32 {
             return 2;
         }
     };
+    if let Ok(dup) = cur.try_clone() {
+        let _ = CUR_FILE.set(std::sync::Mutex::new(dup));
+    }
     let mut hashes_file = if a.hashes {
         Some(std::io::BufWriter::new(
             std::fs::File::create(a.out.join(format!("{}.hashes", a.id))).unwrap(),
@@ -572,6 +595,7 @@ fn cmd_worker(scenarios: &[Scenario], a: WorkerArgs) -> i32 {
         {
             use std::os::unix::fs::FileExt;
             let _ = cur.write_all_at(&idx.to_le_bytes(), 0);
+            let _ = cur.write_all_at(&0u32.to_le_bytes(), 8);
         }
         let seed = mix(a.seed, sc.tag, idx);
         let want_sample = st.samples.len() < 2;
@@ -581,7 +605,7 @@ fn cmd_worker(scenarios: &[Scenario], a: WorkerArgs) -> i32 {
                 // cannot kill the thread: report and leave, the parent resumes after idx
                 let _ = cur.flush();
                 std::fs::write(a.out.join(format!("{}.hang", a.id)), idx.to_string()).ok();
-                write_worker_result(&a, &st, &found);
+                write_worker_result(&a, &st, &found, true);
                 return 3;
             }
         };
@@ -666,11 +690,14 @@ fn cmd_worker(scenarios: &[Scenario], a: WorkerArgs) -> i32 {
             }
         }
         idx += 1;
+        if (idx - a.from) % 256 == 0 {
+            write_worker_result(&a, &st, &found, (idx - a.from) % 4096 == 0);
+        }
     }
     if let Some(mut h) = hashes_file {
         let _ = h.flush();
     }
-    write_worker_result(&a, &st, &found);
+    write_worker_result(&a, &st, &found, true);
     0
 }
 
@@ -681,7 +708,8 @@ fn sanitize(s: &str) -> String {
         .collect()
 }
 
-fn write_worker_result(a: &WorkerArgs, st: &WorkerStats, found: &[Value]) {
+fn write_worker_result(a: &WorkerArgs, st: &WorkerStats, found: &[Value], with_sets: bool) {
+    if with_sets {
     let mut sig_bytes = Vec::with_capacity(st.sigs.len() * 8);
     for s in &st.sigs {
         sig_bytes.extend_from_slice(&s.to_le_bytes());
@@ -692,6 +720,7 @@ fn write_worker_result(a: &WorkerArgs, st: &WorkerStats, found: &[Value]) {
         ev_bytes.extend_from_slice(&s.to_le_bytes());
     }
     std::fs::write(a.out.join(format!("{}.evh", a.id)), ev_bytes).ok();
+    }
     let j = json!({
         "evaluations": st.evaluations,
         "nontrivial": st.nontrivial,
@@ -765,7 +794,11 @@ fn spawn_worker(
     if hashes {
         c.arg("--hashes");
     }
+    // workers report through files; whatever the code under test prints is dropped
     c.stdin(Stdio::null());
+    if std::env::var_os("VERIF_WORKER_OUTPUT").is_none() {
+        c.stdout(Stdio::null()).stderr(Stdio::null());
+    }
     let child = c.spawn()?;
     Ok(Spawned {
         child,
@@ -775,12 +808,20 @@ fn spawn_worker(
     })
 }
 
-fn read_cur(out: &Path, id: &str) -> Option<u64> {
+fn read_cur(out: &Path, id: &str) -> Option<(u64, String)> {
     let b = std::fs::read(out.join(format!("{id}.cur"))).ok()?;
     if b.len() < 8 {
         return None;
     }
-    Some(u64::from_le_bytes(b[..8].try_into().unwrap()))
+    let idx = u64::from_le_bytes(b[..8].try_into().unwrap());
+    let mut note = String::new();
+    if b.len() >= 12 {
+        let n = u32::from_le_bytes(b[8..12].try_into().unwrap()) as usize;
+        if b.len() >= 12 + n {
+            note = String::from_utf8_lossy(&b[12..12 + n]).to_string();
+        }
+    }
+    Some((idx, note))
 }
 
 #[derive(Default)]
@@ -902,7 +943,8 @@ fn cmd_check(scenarios: &[Scenario], prop: &str, tier: &str) -> i32 {
         bin_name()
     );
     let mut m = Merged::default();
-    let mut deaths: Vec<(u64, String)> = vec![];
+    let mut deaths: Vec<(u64, String, String)> = vec![];
+    let mut death_count = 0u64;
     let mut harness_fail: Option<String> = None;
 
     // (from, to) work items; a worker death splits its item
@@ -947,19 +989,19 @@ fn cmd_check(scenarios: &[Scenario], prop: &str, tier: &str) -> i32 {
                         harness_fail = Some(format!("worker {} reported a harness error", s.id));
                     } else {
                         // died (signal), or hang (3)
-                        let at = read_cur(&out, &s.id).unwrap_or(s.from);
+                        let (at, note) = read_cur(&out, &s.id).unwrap_or((s.from, String::new()));
                         let why = if code == Some(3) {
                             "hang".to_string()
                         } else {
                             format!("worker died ({status})")
                         };
-                        if code == Some(3) {
-                            let _ = merge_worker(&out, &s.id, &mut m);
+                        // last checkpoint (or the final result of a hang exit)
+                        let _ = merge_worker(&out, &s.id, &mut m);
+                        death_count += 1;
+                        if deaths.len() < 8 && !deaths.iter().any(|d| d.2 == note && d.1 == why) {
+                            deaths.push((at, why, note));
                         }
-                        if deaths.len() < 4 {
-                            deaths.push((at, why));
-                        }
-                        if at + 1 < s.to && deaths.len() < 4 {
+                        if at + 1 < s.to && death_count < 5000 {
                             pending.push((at + 1, s.to));
                         }
                     }
@@ -978,7 +1020,7 @@ fn cmd_check(scenarios: &[Scenario], prop: &str, tier: &str) -> i32 {
 
     // confirm deaths by re-running the culprit alone in a fresh worker
     let mut violations: Vec<Found> = vec![];
-    for (at, why) in &deaths {
+    for (at, why, note) in &deaths {
         let id = format!("confirm{at}");
         let confirmed = match spawn_worker(prop, seed, *at, at + 1, &out, &id, false) {
             Ok(mut s) => match s.child.wait() {
@@ -991,7 +1033,7 @@ fn cmd_check(scenarios: &[Scenario], prop: &str, tier: &str) -> i32 {
             let oracle = if why == "hang" { "hang" } else { "process_death" };
             let v = Violation::new(
                 oracle,
-                format!("{why} while executing run {at} (confirmed alone in a fresh process)"),
+                format!("{why} while executing run {at} [{note}] (confirmed alone in a fresh process)"),
             );
             let path = vdir
                 .join("replays")
@@ -1132,6 +1174,9 @@ fn cmd_check(scenarios: &[Scenario], prop: &str, tier: &str) -> i32 {
         m.events,
         wall
     );
+    if death_count > 0 {
+        println!("worker processes that died or hung: {death_count}");
+    }
     println!("faults fired: {:?}", m.faults);
     println!("probes: {:?}", m.probes);
     for l in &known_lines {
